@@ -15,7 +15,13 @@ use crate::{
 use derivative::Derivative;
 use num_traits::ToPrimitive;
 use rc::Rc;
-use std::collections::HashMap;
+// the buckets are keyed by the already computed hash; a fixed-state hasher keeps the iteration order of a mapping / set
+// a function of the operations that built it, not of a per-process random seed
+type HashMap<K, V> = std::collections::HashMap<
+    K,
+    V,
+    std::hash::BuildHasherDefault<std::collections::hash_map::DefaultHasher>,
+>;
 use std::fmt::Debug;
 
 use std::iter::once;
